@@ -62,6 +62,7 @@ Next ==
   \/ \E i \in 1..N : Alter("commitmentNil", i, "none", [sent EXCEPT ![i].comm = <<"nil", 0>>])
   \/ \E i \in 1..N : Len(sent[i].others) > 0 /\ Alter("otherNil", i, "none", [sent EXCEPT ![i].others[1] = <<"nil", 0, 0>>])
   \/ \E i \in 1..N : Alter("negate", i, "none", [sent EXCEPT ![i].val = <<"neg", i>>, ![i].comm = <<"negcomm", i>>])
+  \/ \E i \in 1..N : Len(sent[i].others) > 0 /\ Alter("negateOther", i, "none", [sent EXCEPT ![i].others[1] = <<"negoth", i, 1>>])
   \/ Alter("nonceNil", 1, "none", sent) \/ Alter("respNil", 1, "none", sent)
   \/ \E i \in 1..(N - 1) : Alter("swap", i, "none", [sent EXCEPT ![i] = sent[i + 1], ![i + 1] = sent[i]])
   \/ \E i \in 1..N : N > 1 /\ Alter("drop", i, "none", RemoveAt(sent, i))
